@@ -468,4 +468,68 @@ Proof.
   - intros i d Hd. rewrite Ref. apply Fr, Hd.
 Qed.
 
+(** the two public entry points: [fan_convex_cell] fans from the face's own dart, [fan_cell] from the dart its star
+    search returns; what precedes the fan only reads *)
+Lemma wi_custom_tx S d : forall l, writes_in S (custom_tx d l).
+Proof.
+  induction l as [|i r IH]; cbn [custom_tx]; [exact I|]. cbn. intros ?.
+  apply writes_in_bind; [exact IH|]. intros ?. exact I.
+Qed.
+Lemma wi_succ2_tx S p d : writes_in S (succ2_tx p d).
+Proof. destruct p; cbn [succ2_tx]; try (cbn; intros; exact I). apply wi_custom_tx. Qed.
+Lemma wi_orbit_loop S p : forall f q m out, writes_in S (orbit_tx_loop f p q m out).
+Proof.
+  induction f as [|f IH]; intros q m out; cbn [orbit_tx_loop]; [exact I|]. destruct q as [|d q']; [exact I|].
+  apply writes_in_bind; [apply wi_succ2_tx|]. intros ims. destruct (fold_left check ims (q', m)). apply IH.
+Qed.
+Lemma wi_orbit2_tx S n p d : writes_in S (orbit2_tx n p d).
+Proof. unfold orbit2_tx. destruct (policy_ok p); [apply wi_orbit_loop|exact I]. Qed.
+Lemma wi_read_face_vertices n : forall ds, writes_in Sdata (read_face_vertices n ds).
+Proof.
+  induction ds as [|d r IH]; cbn [read_face_vertices]; [exact I|].
+  apply writes_in_bind; [apply wi_vertex_id|]. intros ?. cbn. intros ov. destruct (asV ov); [|exact I].
+  apply writes_in_bind; [exact IH|]. intros ?. exact I.
+Qed.
+Lemma chain_img_eq f g : img_eq g f -> forall C d0, chain f d0 C -> chain g d0 C.
+Proof. intros He C. induction C as [|c1 r IH]; intros d0 Hc; cbn [chain] in *; [exact I|]. destruct Hc as [A B]. split; [rewrite He; exact A|apply IH, B]. Qed.
+
+Theorem fan_convex_cell_triangulates E n ks p0 nds C c w cnt w' cnt' :
+  chain (beta w) p0 C -> beta w 0 p0 = last C p0 -> beta w 1 (last C p0) = p0 ->
+  length C = (length (chunks2 nds) + 2)%nat -> NoDup (p0 :: C ++ flat (chunks2 nds)) ->
+  run E (fan_convex_cell n ks p0 nds) c w cnt = (Done tt, w', cnt') ->
+  fan_tri (beta w') p0 C (chunks2 nds) /\
+  (forall i d, ~ In d (p0 :: C ++ flat (chunks2 nds)) -> beta w' i d = beta w i d).
+Proof.
+  intros Hc H0 Hl Hlen Hnd Hr. unfold fan_convex_cell in Hr.
+  apply data_stepY in Hr; [|apply wi_orbit2_tx]. destruct Hr as (ds & wa & ca & Ea & Hr).
+  destruct (check_requirements (length ds) (length nds)); [cbn in Hr; discriminate Hr|].
+  destruct (fan_from_triangulates E n ks p0 nds C c wa ca w' cnt') as (Tri & Fr); auto.
+  - apply (chain_img_eq (beta w)); [exact Ea|exact Hc].
+  - rewrite !Ea. exact H0.
+  - rewrite !Ea. exact Hl.
+  - split; [exact Tri|]. intros i d Hd. rewrite (Fr i d Hd). apply Ea.
+Qed.
+
+Theorem fan_cell_triangulates E n ks f nds c w cnt w' cnt' :
+  run E (fan_cell n ks f nds) c w cnt = (Done tt, w', cnt') ->
+  exists p0, forall C,
+    chain (beta w) p0 C -> beta w 0 p0 = last C p0 -> beta w 1 (last C p0) = p0 ->
+    length C = (length (chunks2 nds) + 2)%nat -> NoDup (p0 :: C ++ flat (chunks2 nds)) ->
+    fan_tri (beta w') p0 C (chunks2 nds) /\
+    (forall i d, ~ In d (p0 :: C ++ flat (chunks2 nds)) -> beta w' i d = beta w i d).
+Proof.
+  intros Hr. unfold fan_cell in Hr.
+  apply data_stepY in Hr; [|apply wi_orbit2_tx]. destruct Hr as (ds & wa & ca & Ea & Hr).
+  apply data_stepY in Hr; [|apply wi_read_face_vertices]. destruct Hr as (vs & wb & cb & Eb & Hr).
+  destruct (check_requirements (length ds) (length nds)); [cbn in Hr; discriminate Hr|].
+  destruct (find_star ds vs) as [p0|]; [|cbn in Hr; discriminate Hr].
+  exists p0. intros C Hc H0 Hl Hlen Hnd.
+  assert (Eab : img_eq (beta wb) (beta w)) by (eapply img_eq_trans; eauto).
+  destruct (fan_from_triangulates E n ks p0 nds C c wb cb w' cnt') as (Tri & Fr); auto.
+  - apply (chain_img_eq (beta w)); [exact Eab|exact Hc].
+  - rewrite !Eab. exact H0.
+  - rewrite !Eab. exact Hl.
+  - split; [exact Tri|]. intros i d Hd. rewrite (Fr i d Hd). apply Eab.
+Qed.
+
 End FanTopo.
